@@ -3,7 +3,7 @@ CONSTANTS
   NMax = 4
   NSmall = 4
   MaxMet = 2
-  AtTarget = TRUE
+  Impl = "pinned"
 INVARIANT RampStart
 INVARIANT RampMonotone
 INVARIANT RampReaches
